@@ -192,20 +192,36 @@ def days_constants():
     return mod.Constants.DAYS
 
 
+# patterns of the last run that the flat matcher cannot express: (family, text, reason)
+UNTRANSLATED = []
+# an item no string can match: code points end at 0x10FFFF
+NEVER = '[.lit 1114112]'
+
+
 def generate():
     pats = load_tree_patterns()
+    del UNTRANSLATED[:]
     text = HEADER % ('timexregex', 'datatypes_timex_expression/timex_regex.py + CPython %s unicodedata' %
                      sys.version.split()[0])
     text += 'import RTV.Model.TimexRe\nset_option maxRecDepth 100000\nnamespace RTV.Gen.TimexRegex\nopen RTV.Timex\n\n'
     for k in ('date', 'time', 'period'):
         rows = []
         for p in pats[k]:
-            rows.append('[' + ', '.join(translate_pattern(p)) + ']')
+            # A pattern outside the flat shape must not stop the check: it is emitted as a pattern that never matches
+            # (so the model keeps following every other pattern), listed in `untranslated`, and `genCfg_ok` fails on
+            # it; the property oracles of the check (field grid, corpus, tree grammar) then look for a failing input.
+            try:
+                rows.append('[' + ', '.join(translate_pattern(p)) + ']')
+            except Exception as e:  # noqa
+                UNTRANSLATED.append((k, p, '%s: %s' % (type(e).__name__, e)))
+                rows.append(NEVER)
         text += '/-- `TimexRegex.timexRegex[%r]` -/\n' % k
         text += 'def %sPatterns : List (List Item) := %s\n\n' % (k, lean_list(rows, per_line=1))
     allp = [p for k in ('date', 'time', 'period') for p in pats[k]]
     text += '/-- the pattern texts as they stand in the working tree (code points), in the order date, time, period -/\n'
     text += 'def patternTexts : List (List Nat) := %s\n\n' % lean_list([cps(p) for p in allp], per_line=1)
+    text += '/-- pattern texts the translator could not express as `Item` lists (emitted as never-matching patterns) -/\n'
+    text += 'def untranslated : List (List Nat) := %s\n\n' % lean_list([cps(p) for _, p, _ in UNTRANSLATED], per_line=1)
     text += '/-- zero digits of the Unicode Nd blocks of the running interpreter -/\n'
     text += 'def ndZeros : List Nat := %s\n\n' % lean_list([str(z) for z in nd_zeros()], per_line=12)
     cc = creator_constants()
